@@ -10,8 +10,8 @@
          buffered-peek loop (non-empty look-ahead) and through the raw fast path (empty look-ahead);
      T3  [skip_spaces_to], [skip_block_scalar_indent] (narrow path and wide path indent >= bufmaxlen - 2) and
          [skip_first_line_indent]: blank lines are counted, min(k, indent) spaces of the next line are consumed;
-     T4  [C05_literal_partial]: scan_block_scalar returns [block_value] for
-           style        literal
+     T4  [C05_block_scalar_partial]: scan_block_scalar returns [block_value] for
+           style        literal and folded
            chomping     strip, clip, keep
            indentation  explicit (1-9, either indicator order) or auto-detected, content indentation >= 1
            parent       any scanner state (parent indentation = what unroll_non_block_indents leaves, -1 at top level)
@@ -22,12 +22,17 @@
                         has no extra indentation and is not whitespace-only
            line breaks  LF
            end          every line terminated by a line feed, then a less indented line that does not start with a
-                        break, or the end of the input (trailing blank lines are part of the line list)
+                        break, or the end of the input (trailing blank lines are part of the line list);
+                        [C05_block_scalar_eof_partial]: the end of the input right after the last content line
+                        (no final line feed);
+                        [C05_block_scalar_empty_partial]: NO content line at all — blank lines only (or nothing),
+                        then the end of the input (with a final line feed, without, or inside a last line of
+                        spaces: the end-of-stream path) or a line of an enclosing collection
            back-end     string input
-   NOT proved (stated as [C05_full], exercised by the Examples below and by the differential run): folded style,
-   content indentation 0, scalars without content lines, header comments, CR / CR LF, the end of the input without a
-   final line feed, buffered back-ends.  [C05_full] itself is refuted on the faithful model by three input classes
-   (known_findings_c05.jsonl); the witnesses are theorems below. *)
+   NOT proved (stated as [C05_full], exercised by the Examples below and by the differential run):
+   content indentation 0, a document marker after a content-less top-level scalar, header comments, CR / CR LF, the end of the input
+   after a whitespace-only last line without a line feed, buffered back-ends.  [C05_full] itself is refuted on the
+   faithful model by three input classes (known_findings_c05.jsonl); the witnesses are theorems below. *)
 From Coq Require Import List NArith ZArith Bool Arith Lia.
 Import ListNotations.
 Require Import Parser SBase SPrim SDir SScalar SFetch Pipe SBuf Drivers BlockScalar BlockScalarProofs.
@@ -93,9 +98,9 @@ Proof. exact skip_first_line_indent_spec. Qed.
 Print Assumptions C05_first_line_indent.
 
 (* ---- T4 ---- *)
-Theorem C05_literal_partial : forall (s : sc strin) F c (explicit : option nat) (digit_first : bool)
+Theorem C05_block_scalar_partial : forall (s : sc strin) F literal c (explicit : option nat) (digit_first : bool)
     (lines : list bline) (j : nat) (r' : list chr) (n : nat) pz inds,
-  si_chars (sc_in s) = render_block n true c explicit digit_first [] lines (EofRest (sps j ++ r')) ->
+  si_chars (sc_in s) = render_block n literal c explicit digit_first [] lines (EofRest (sps j ++ r')) ->
   unroll_nb (sc_indents s) (sc_indent s) = (pz, inds) ->
   n <> O -> Forall (line_ok F n) lines -> (S (length lines) < F)%nat -> has_text lines = true ->
   (j < n)%nat -> hd0 r' <> 32 -> is_break (hd0 r') = false -> (r' = [] -> j = O) ->
@@ -103,19 +108,55 @@ Theorem C05_literal_partial : forall (s : sc strin) F c (explicit : option nat) 
   | Some d => (1 <= d <= 9)%nat /\ N.of_nat n = (if (0 <=? pz)%Z then Z.to_N (pz + Z.of_N (N.of_nat d)) else N.of_nat d)
   | None => Z.to_N (pz + 1) <= N.of_nat n /\ exists txt, first_text lines = Some (O, txt) /\ txt <> []
   end ->
-  exists sp s', scan_block_scalar str_ops F true s = Ok ((sp, TScalar Literal (block_value true c lines)), s')
+  exists sp s', scan_block_scalar str_ops F literal s
+                = Ok ((sp, TScalar (if literal then Literal else Folded) (block_value literal c lines)), s')
                 /\ si_chars (sc_in s') = r'.
-Proof. exact literal_block_scalar_lines. Qed.
-Print Assumptions C05_literal_partial.
+Proof. exact block_scalar_lines. Qed.
+Print Assumptions C05_block_scalar_partial.
+
+Theorem C05_block_scalar_eof_partial : forall (s : sc strin) F literal c (explicit : option nat) (digit_first : bool)
+    (lines : list bline) (n : nat) pz inds,
+  si_chars (sc_in s) = render_block n literal c explicit digit_first [] lines EofNone ->
+  unroll_nb (sc_indents s) (sc_indent s) = (pz, inds) ->
+  n <> O -> Forall (line_ok F n) lines -> (S (length lines) < F)%nat -> has_text lines = true ->
+  trailing_blanks lines = O ->
+  match explicit with
+  | Some d => (1 <= d <= 9)%nat /\ N.of_nat n = (if (0 <=? pz)%Z then Z.to_N (pz + Z.of_N (N.of_nat d)) else N.of_nat d)
+  | None => Z.to_N (pz + 1) <= N.of_nat n /\ exists txt, first_text lines = Some (O, txt) /\ txt <> []
+  end ->
+  exists sp s', scan_block_scalar str_ops F literal s
+                = Ok ((sp, TScalar (if literal then Literal else Folded) (block_value literal c lines)), s')
+                /\ si_chars (sc_in s') = [].
+Proof. exact block_scalar_lines_eof. Qed.
+Print Assumptions C05_block_scalar_eof_partial.
+
+Theorem C05_block_scalar_empty_partial : forall (s : sc strin) F literal c (explicit : option nat) (digit_first : bool)
+    (ks : list nat) (j : nat) (r' : list chr) pz inds,
+  si_chars (sc_in s) = header literal c explicit digit_first ++ 10 :: blank_lines ks ++ sps j ++ r' ->
+  unroll_nb (sc_indents s) (sc_indent s) = (pz, inds) ->
+  Forall (fun k => (k < F)%nat) (j :: ks) -> (S (length ks) < F)%nat ->
+  hd0 r' <> 32 -> is_break (hd0 r') = false -> hd0 (blank_lines ks ++ sps j ++ r') <> 9 ->
+  (r' = [] \/ (hd0 r' <> 0 /\ (Z.of_nat j <= pz)%Z)) ->
+  match explicit with
+  | Some d => (1 <= d <= 9)%nat /\
+              let n := if (0 <=? pz)%Z then Z.to_N (pz + Z.of_N (N.of_nat d)) else N.of_nat d in
+              Forall (fun k => N.of_nat k <= n) (j :: ks)
+  | None => True
+  end ->
+  exists sp s', scan_block_scalar str_ops F literal s
+                = Ok ((sp, TScalar (if literal then Literal else Folded) (block_value literal c (empty_lines ks j r'))), s')
+                /\ si_chars (sc_in s') = r'.
+Proof. exact block_scalar_empty. Qed.
+Print Assumptions C05_block_scalar_empty_partial.
 
 From Coq Require Import String.
 
 (* the hypotheses of T4 are satisfiable, and the conclusion is not vacuous: "|-\n  x\n\n   y\n \nz" at top level *)
-Example C05_literal_partial_instance :
+Example C05_block_scalar_partial_instance :
   exists sp s', scan_block_scalar str_ops 40 true (init_sc {| si_chars := L "|-/  x//   y/ /z"; si_look := 0 |})
                 = Ok ((sp, TScalar Literal (L "x// y")), s') /\ si_chars (sc_in s') = L "z".
 Proof.
-  apply (literal_block_scalar_lines _ 40 CStrip None false [Text 0 (L "x"); Blank 0; Text 1 (L "y"); Blank 1] O (L "z") 2 (-1)%Z []).
+  apply (block_scalar_lines _ 40 true CStrip None false [Text 0 (L "x"); Blank 0; Text 1 (L "y"); Blank 1] O (L "z") 2 (-1)%Z []).
   - reflexivity.
   - reflexivity.
   - discriminate.
@@ -128,6 +169,41 @@ Proof.
   - reflexivity.
   - discriminate.
   - split; [cbn; discriminate|]. exists (L "x"). split; [reflexivity|discriminate].
+Qed.
+Example C05_block_scalar_partial_instance_folded :
+  exists sp s', scan_block_scalar str_ops 60 false (init_sc {| si_chars := L ">2+/  x/  y//   z/  w/ /k: v"; si_look := 0 |})
+                = Ok ((sp, TScalar Folded (L "x y// z/w//")), s') /\ si_chars (sc_in s') = L "k: v".
+Proof.
+  apply (block_scalar_lines _ 60 false CKeep (Some 2%nat) true
+           [Text 0 (L "x"); Text 0 (L "y"); Blank 0; Text 1 (L "z"); Text 0 (L "w"); Blank 1] O (L "k: v") 2 (-1)%Z []).
+  - reflexivity.
+  - reflexivity.
+  - discriminate.
+  - repeat (apply Forall_cons || apply Forall_nil); unfold line_ok, nobreak; cbn;
+      repeat split; try discriminate; try (right; discriminate); try (left; discriminate); try lia; repeat constructor.
+  - cbn. lia.
+  - reflexivity.
+  - lia.
+  - discriminate.
+  - reflexivity.
+  - discriminate.
+  - split; [lia|reflexivity].
+Qed.
+
+Example C05_block_scalar_empty_instance :   (* "- |+\n\n   <eof>" : keep counts the blank line and the line of spaces *)
+  exists sp s', scan_block_scalar str_ops 20 true (init_sc {| si_chars := L "|+//   "; si_look := 0 |})
+                = Ok ((sp, TScalar Literal (L "//")), s') /\ si_chars (sc_in s') = [].
+Proof.
+  apply (block_scalar_empty _ 20 true CKeep None false [O] 3 [] (-1)%Z []).
+  - reflexivity.
+  - reflexivity.
+  - repeat constructor; lia.
+  - cbn. lia.
+  - discriminate.
+  - reflexivity.
+  - discriminate.
+  - left. reflexivity.
+  - exact I.
 Qed.
 
 (* ---- the complete statement is false on the faithful model: three classes (known findings) ---- *)
